@@ -190,7 +190,9 @@ func scalarFamily(lo, hi rune) *core.Family {
 // ---------------------------------------------------------------------------
 // entities, entity maps, requests, diagnostics
 
-func uid(t, id string) types.EntityUID { return types.NewEntityUID(types.EntityType(t), types.String(id)) }
+func uid(t, id string) types.EntityUID {
+	return types.NewEntityUID(types.EntityType(t), types.String(id))
+}
 
 var parentPool = []types.EntityUID{uid("G", "g1"), uid("G", "g\"2"), uid("NS::H", "")}
 var recPool = []Val{Rec(), Rec(KV{"a", Long(1)}), Rec(KV{"d", Decimal(12345)}, KV{"e", Entity("G", "g1")}, KV{"s", Set(Long(1), Str("x"))}, KV{"r", Rec(KV{"ip", IP4(10, 0, 0, 0, 8)})}), Rec(KV{"", Datetime(-1)}, KV{"é", Duration(gen.MinI)})}
